@@ -1075,6 +1075,34 @@ def _binop_array():
     return gen, run
 
 
+@defop("iop", "arith", prop16="drop", weight=0.8)
+def _iop():
+    """Augmented assignment: without __iadd__ & co. it is `x = x + other`, i.e. the operand object must not change."""
+    def gen(w, rng):
+        ok = lambda a: a.dtype.kind in "fi"
+        a_id = pick_arr(w, rng, ok)
+        if a_id is None:
+            return None
+        st = {"a": a_id, "fn": rng.choice(["add", "sub", "mul"]), "out": out(w)}
+        if rng.random() < 0.6:
+            st["b"] = pick_arr(w, rng, ok)
+        else:
+            st["value"] = rng.choice([2, 0.5])
+        return st
+
+    def run(w, s):
+        x = w.arr(s["a"])
+        other = w.arr(s["b"]) if s.get("b") else s["value"]
+        if s["fn"] == "add":
+            x += other
+        elif s["fn"] == "sub":
+            x -= other
+        else:
+            x *= other
+        return x
+    return gen, run
+
+
 @defop("binop_nd", "arith", prop16="drop", weight=0.5)
 def _binop_nd():
     def gen(w, rng):
